@@ -206,9 +206,9 @@ func init() {
 		Assume: []string{"single client, default schedule, quiescence after every request", "memkv is the reference (tied to the versioned-map model by C03)"},
 		Exec:   func(j *mc.Job) *mc.JobResult { return mc.SeqExec(j, c12Run) },
 		Drive: func(c *mc.Ctx) {
-			depth := 5
+			depth := 6
 			if c.Tier == "thorough" {
-				depth = 7
+				depth = 8
 			}
 			st := mc.DriveSeq(c, "bfs", 0, len(c12Alphabet()), depth)
 			c.Cov["states"] = st.States
